@@ -161,6 +161,14 @@ pub fn run(a: &Args) {
             }
         }
     }
+    // first rows (no previous row) far longer than any block size an implementation might cut them into
+    for ft in 0..=4u8 {
+        for &bpp in &BPPS {
+            let len = (*rng.pick(&[24_576usize, 24_580, 26_000, 30_000, 49_200]) / bpp) * bpp;
+            let cur = rng.bytes(len);
+            run_unfilter_case(&mut o, ft, bpp, &[], &cur);
+        }
+    }
     // illegal filter bytes are refused
     for ft in [5u8, 6, 7, 64, 128, 255] {
         run_unfilter_case(&mut o, ft, 1, &[], &[1, 2, 3]);
